@@ -125,6 +125,30 @@ Theorem C09_preconfirmed_no_false_negative :
 Proof. intros member Hs n b flt. apply (block_candidate member Hs n b (block_keys b) flt). auto. Qed.
 Print Assumptions C09_preconfirmed_no_false_negative.
 
+(* starknet_getEvents (rpc/v8|v9|v10 events.go, setEventFilterRange): with the block ids resolved as the
+   handlers do (numeric to_block bounded by the head, numeric from_block taken as it is), a page never
+   contains an event of a block outside [from, to] /\ [0, head] - from being the resume block when a
+   continuation token is given ... *)
+Theorem C09_rpc_page_within_range :
+  forall (W : N), 0 < W ->
+  forall (member : list bkey -> bkey -> bool) s flt fb tb chunk limit tok s' evs t from to,
+  resolve_bid false (lenN (chain s) - 1) 0 fb = Some from ->
+  resolve_bid true (lenN (chain s) - 1) (lenN (chain s) - 1) tb = Some to ->
+  do_rpc_events W member s flt fb tb chunk limit tok [] = (s', Some (OPage evs t)) ->
+  forall e, In e evs ->
+    (if tok_none tok then from else fst tok) <= fe_block e <= N.min to (lenN (chain s) - 1).
+Proof. exact rpc_page_within_range. Qed.
+Print Assumptions C09_rpc_page_within_range.
+
+(* ... in particular a numeric from_block above the head gives one empty page without a token *)
+Theorem C09_rpc_from_above_head_empty :
+  forall (W : N) (member : list bkey -> bkey -> bool) s flt n tb chunk limit to,
+  chain s <> [] -> lenN (chain s) - 1 < n ->
+  resolve_bid true (lenN (chain s) - 1) (lenN (chain s) - 1) tb = Some to ->
+  do_rpc_events W member s flt (BNumber n) tb chunk limit (0, 0) [] = (s, Some (OPage [] (0, 0))).
+Proof. exact rpc_from_above_head_empty. Qed.
+Print Assumptions C09_rpc_from_above_head_empty.
+
 (* the boolean evaluated by the harness implies the hypothesis used above *)
 Theorem C09_cache_fresh_decided : forall s, cache_fresh_b s = true -> cache_fresh s.
 Proof. exact cache_fresh_b_sound. Qed.
